@@ -360,6 +360,14 @@ def on_type_with_overridden_serialization(
     elif callable(overridden_method):
         try:
             new_type = get_function_return_annotation(overridden_method)
+            if isinstance(new_type, ForwardRef):
+                # a postponed (PEP 563) annotation: resolve it here, a
+                # derived Instance would meet the same override again
+                new_type = evaluate_forward_ref(
+                    new_type,
+                    get_forward_ref_referencing_globals(new_type),
+                    None,
+                )
             if new_type is instance.type:
                 return None
             else:
